@@ -530,6 +530,7 @@ def trace(body, op, passthrough_extra=(), through_calls=True, _depth=0, _tr=None
         # into callers, which do not change the value)
         k_ = len(st) - 1
         open_refs = 0
+        env_deref = None
         while k_ >= 0:
             kind_ = st[k_][0]
             if kind_ in ("use", "enter_caller", "enter_callee"):
@@ -541,6 +542,11 @@ def trace(body, op, passthrough_extra=(), through_calls=True, _depth=0, _tr=None
             elif kind_ == "deref" and open_refs > 0:
                 # ... and dereferenced again closer to the use: the pair cancels
                 open_refs -= 1
+                k_ -= 1
+            elif kind_ == "deref" and open_refs == 0 and rv["agg"] == "closure" and env_deref is None and k_ >= 1 and st[k_ - 1][0] == "field":
+                # `(*_1).upvar` inside an Fn/FnMut closure body: the body sees its environment by reference, the
+                # function that makes the closure holds it by value
+                env_deref = k_
                 k_ -= 1
             else:
                 break
@@ -565,6 +571,8 @@ def trace(body, op, passthrough_extra=(), through_calls=True, _depth=0, _tr=None
                 elif name.isdigit() and int(name) < len(rv["ops"]):
                     idx = int(name)
         if idx is not None:
+            if env_deref is not None and env_deref >= cut[1]:
+                del st[env_deref]
             del st[cut[0]:cut[1]]
             st.append(("agg_field", name))
             return trace(body, rv["ops"][idx], passthrough_extra, through_calls, _depth + 1, tr)
@@ -959,6 +967,21 @@ class Super:
                     if is_place(a) and "{closure@" in caller.local_ty(a["p"]["l"]):
                         return (ppath, cbb), caller, a
             return None
+        if callee is not None and callee.raw["def_kind"] == "Closure" and cf.get("def") not in CLOSURE_CALLS and (cf.get("resolved") or cf.get("def")) != callee_id:
+            # a closure run by some other higher-order function (`iter.try_fold(init, |acc, x| ..)`): its environment is
+            # the closure value among the call's arguments; what its value parameters receive is the callee's business
+            if arg_local == 1:
+                cands = [a for a in args if is_place(a) and "{closure@" in caller.local_ty(a["p"]["l"])]
+                if len(cands) > 1:
+                    named = []
+                    for a in cands:
+                        tr_ = trace(caller, a)
+                        if tr_.origin and tr_.origin[0] == "agg" and tr_.origin[1]["rv"].get("def") == callee_id:
+                            named.append(a)
+                    cands = named
+                if len(cands) == 1:
+                    return (ppath, cbb), caller, cands[0]
+            return None
         if 1 <= arg_local <= len(args):
             return (ppath, cbb), caller, args[arg_local - 1]
         return None
@@ -1036,6 +1059,15 @@ def body_ty_is_bool(rv):
     if a.get("k") == "const":
         return a.get("ty") == "bool"
     return is_place(a) and a["p"].get("ty") == "bool"
+
+
+# `&self -> bool` tests of the variant: definition -> the variant index they answer true for
+_VARIANT_TESTS = {
+    "std::result::Result::<T, E>::is_ok": 0,
+    "std::result::Result::<T, E>::is_err": 1,
+    "std::option::Option::<T>::is_none": 0,
+    "std::option::Option::<T>::is_some": 1,
+}
 
 
 class PathSens:
@@ -1416,6 +1448,37 @@ class PathSens:
                             f2[dkey] = bf
                             if bpf is not None and self.payloads:
                                 f2[self._pk(dkey)] = bpf
+                if f and not dest["pr"] and len(t["args"]) == 1 and f["def"] in _VARIANT_TESTS and is_place(t["args"][0]) and not t["args"][0]["p"]["pr"]:
+                    # `r.is_err()`: the answer is known when r's variant is
+                    tk = self._deref(facts, (path, t["args"][0]["p"]["l"]))
+                    tf = facts.get(tk)
+                    if tf and tf[0] == "var" and tk != (path, t["args"][0]["p"]["l"]):
+                        f2[dkey] = ("const", int(tf[1] == _VARIANT_TESTS[f["def"]]))
+                if f and not dest["pr"] and f["def"].endswith("::transpose") and len(t["args"]) == 1 and self.payloads:
+                    # Result<Option<T>, E> <-> Option<Result<T, E>>
+                    af, apf, _ = self._operand_fact(facts, path, t["args"][0])
+                    from_result = f["def"].startswith("std::result::Result")
+                    if af is not None and af[0] == "var":
+                        if from_result:
+                            if af[1] == 1:
+                                f2[dkey] = ("var", 1)
+                                f2[self._pk(dkey)] = ("var", 1)  # Some(Err(e))
+                            elif apf is not None and apf[0] == "var":
+                                if apf[1] == 0:
+                                    f2[dkey] = ("var", 0)  # Ok(None) -> None
+                                else:
+                                    f2[dkey] = ("var", 1)
+                                    f2[self._pk(dkey)] = ("var", 0)  # Ok(Some(x)) -> Some(Ok(x))
+                        else:
+                            if af[1] == 0:
+                                f2[dkey] = ("var", 0)
+                                f2[self._pk(dkey)] = ("var", 0)  # None -> Ok(None)
+                            elif apf is not None and apf[0] == "var":
+                                if apf[1] == 1:
+                                    f2[dkey] = ("var", 1)  # Some(Err(e)) -> Err(e)
+                                else:
+                                    f2[dkey] = ("var", 0)
+                                    f2[self._pk(dkey)] = ("var", 1)  # Some(Ok(x)) -> Ok(Some(x))
                 if f and not dest["pr"] and f["def"] in ("core::bool::<impl bool>::then_some", "std::bool::<impl bool>::then_some", "core::bool::<impl bool>::then", "std::bool::<impl bool>::then") and t["args"]:
                     cf_ = self._operand_fact(facts, path, t["args"][0])[0]
                     if cf_ and cf_[0] == "const":
@@ -1452,6 +1515,8 @@ class PathSens:
                                                 f2[self._ppk(dkey)] = apf
                                 elif kind == "option":
                                     f2[dkey] = ("var", 1 if af[1] == 0 else 0)
+                                    if self.payloads and af[1] == 1 and apf is not None:
+                                        f2[self._pk(dkey)] = apf  # Continue(payload of Some)
                                 elif kind == "controlflow":
                                     f2[dkey] = ("var", af[1])
                     elif d == "std::ops::FromResidual::from_residual":
